@@ -320,7 +320,15 @@ func (c *Cluster) serve(cn *Conn, sv *pipeEnd) {
 		q := &Req{conn: cn, pkt: r, epoch: c.w.epoch, arr: c.arr}
 		q.id = fmt.Sprintf("%s|%s|vb%d|%s|%s", cn.id, r.Command.Name(), r.Vbucket, printable(r.Key), reqDetail(&r))
 		cn.queue = append(cn.queue, q)
-		c.w.jl(&journal.Ev{K: journal.KReq, M: cn.member, Vb: int(r.Vbucket), Key: r.Key, S: r.Command.Name(), ID: q.id, S2: cn.role, I: int64(q.arr)})
+		rev := &journal.Ev{K: journal.KReq, M: cn.member, Vb: int(r.Vbucket), Key: r.Key, S: r.Command.Name(), ID: q.id, S2: cn.role, I: int64(q.arr)}
+		if r.Command == memd.CmdDcpStreamReq && len(r.Extras) >= 48 {
+			rev.U = uint64(binary.BigEndian.Uint32(r.Extras[0:]))
+			rev.Off = &journal.Off{
+				Seq: binary.BigEndian.Uint64(r.Extras[8:]), Latest: binary.BigEndian.Uint64(r.Extras[16:]),
+				UUID: binary.BigEndian.Uint64(r.Extras[24:]), Start: binary.BigEndian.Uint64(r.Extras[32:]), End: binary.BigEndian.Uint64(r.Extras[40:]),
+			}
+		}
+		c.w.jl(rev)
 		c.w.mu.Unlock()
 		c.w.poke()
 	}
